@@ -81,6 +81,11 @@ CHECKS = {
          "Each scenario owns a listener instance; 48 instances run concurrently per wave so the real-time wait for the detector is shared. All interleavings of 2 sources x 3 probes and (thorough) 3 x 2, seeded bursts of 1..150 probes over TCP/UDP/ICMP with repeated ports from 1..4 sources.",
          "Events are awaited up to 16 s (three detector periods); verdicts are on content. TCP port 22 and decoded UDP ports are not probed.",
          "DESIGN.md §5 C20"),
+ "C14": ("exploration",
+         "runtime monitoring: frames injected synchronously into the real handleTCP (verif accessor), emitted frames drained from the transmit ring and verified by an independent Ethernet/IPv4/TCP decoder (lengths, header and pseudo-header checksums, addressing); offline oracle = RFC 793 shadow model of the peer's expectations (SYN-ACK ack, exact cumulative acks modulo 2^32, FIN answered, event addresses/payload prefix), over boundary ISNs, segmentations, all 252 interleavings of two 5-frame connections, seeded multi-connection interleavings and a yield point that parks the handler",
+         "The shadow client behaves like a real peer (acknowledges the listener's FIN once it has seen it). Every emitted frame is decoded independently; every connection's event is compared with the bytes sent.",
+         "Frames are read from the transmit ring, not the wire; server ISN is whatever the implementation draws. Five design-level deviations are recorded as known findings (see known_findings.jsonl).",
+         "DESIGN.md §5 C14"),
 }
 
 NOT_YET = {
